@@ -186,9 +186,15 @@ theorem mem_delLinks {t : Nat} {b : Bool} {i : Nat} {ls : List Link} {l : Link} 
   simp only [delLinks, List.mem_filter, Bool.not_eq_true', Bool.and_eq_false_iff, beq_eq_false_iff_ne, ne_eq, not_and]
   grind
 
+/-- the victim's own joins are cleaned by `joinColumn`, the dependents' joins by `otherColumn`
+    (about the **extracted** `destroySelf` statements: `rfl` fails if the source names other columns) -/
+theorem ownDeleteCol_first (b : Bool) : Extracted.Graph.ownDeleteCol.first b = b := rfl
+theorem depDeleteCol_first (b : Bool) : Extracted.Graph.depDeleteCol.first b = !b := rfl
+
 theorem mem_delOwnLinks {S : Schema} {c i : Nat} {ls : List Link} {l : Link} :
     l ∈ delOwnLinks S c i ls ↔ l ∈ ls ∧ ∀ j ∈ (S.cls c).joins, ¬ (l.table = j.table ∧ l.col j.ownFirst = i) := by
   unfold delOwnLinks
+  simp only [ownDeleteCol_first]
   generalize (S.cls c).joins = js
   induction js generalizing ls with
   | nil => simp
@@ -200,6 +206,7 @@ theorem mem_delDepLinks {S : Schema} {k c i : Nat} {ls : List Link} {l : Link} :
     l ∈ delDepLinks S k c i ls ↔
       l ∈ ls ∧ ∀ j ∈ (S.cls k).joins, j.other = c → ¬ (l.table = j.table ∧ l.col (!j.ownFirst) = i) := by
   unfold delDepLinks
+  simp only [depDeleteCol_first]
   generalize (S.cls k).joins = js
   induction js generalizing ls with
   | nil => simp
@@ -942,5 +949,211 @@ theorem refusedOK_destroy (S : Schema) : ∀ n, RefusedOK S (destroy S n)
     | refused db2 =>
       exact (procDeps_refused (recOK_destroy S n) (refusedOK_destroy S n) c i _ _ _ hrec).back e0
     | fuel db2 => rw [hrec] at hr; cases hr
+
+/-! ## acyclic data has a bounded rank -/
+
+section
+open Classical
+
+/-- a nonempty path of cascade references from a row (given by its key) to a key -/
+inductive CPath (S : Schema) (db : DB) : Key → Key → Prop
+  | one {r : Row} {y : Key} : r ∈ db.rows → CascRef S r y → CPath S db r.key y
+  | cons {r : Row} {y z : Key} : r ∈ db.rows → CascRef S r y → CPath S db y z → CPath S db r.key z
+
+/-- no row reaches itself through cascade=True references -/
+def AcyclicData (S : Schema) (db : DB) : Prop := ∀ x, ¬ CPath S db x x
+
+theorem CPath.snoc {S : Schema} {db : DB} {x k : Key} (h : CPath S db x k) :
+    ∀ {r : Row} {y : Key}, r ∈ db.rows → r.key = k → CascRef S r y → CPath S db x y := by
+  induction h with
+  | @one r0 k hr0 hc0 =>
+    intro r y hr hk hc
+    exact .cons hr0 (hk ▸ hc0) (hk ▸ CPath.one hr hc)
+  | @cons r0 m k hr0 hc0 _ ih =>
+    intro r y hr hk hc
+    exact .cons hr0 hc0 (ih hr hk hc)
+
+/-- `Chain y l`: `l` lists rows `r₁, r₂, …` with `r₁ → y`, `r₂ → r₁`, … (cascade references) -/
+inductive Chain (S : Schema) (db : DB) : Key → List Key → Prop
+  | nil (y : Key) : Chain S db y []
+  | cons {r : Row} {y : Key} {l : List Key} : r ∈ db.rows → CascRef S r y → Chain S db r.key l → Chain S db y (r.key :: l)
+
+theorem Chain.path {S : Schema} {db : DB} {y : Key} {l : List Key} (h : Chain S db y l) :
+    ∀ x ∈ l, CPath S db x y := by
+  induction h with
+  | nil => intro x hx; cases hx
+  | @cons r y l hr hc _ ih =>
+    intro x hx
+    rcases List.mem_cons.mp hx with rfl | hx
+    · exact .one hr hc
+    · exact (ih x hx).snoc hr rfl hc
+
+theorem Chain.rows {S : Schema} {db : DB} {y : Key} {l : List Key} (h : Chain S db y l) :
+    l ⊆ db.rows.map Row.key := by
+  induction h with
+  | nil => intro x hx; cases hx
+  | @cons r y l hr _ _ ih =>
+    intro x hx
+    rcases List.mem_cons.mp hx with rfl | hx
+    · exact List.mem_map.mpr ⟨r, hr, rfl⟩
+    · exact ih hx
+
+theorem Chain.nodup {S : Schema} {db : DB} (hac : AcyclicData S db) {y : Key} {l : List Key}
+    (h : Chain S db y l) : l.Nodup := by
+  induction h with
+  | nil => exact List.nodup_nil
+  | @cons r y l _ _ hch ih =>
+    rw [List.nodup_cons]
+    exact ⟨fun hm => hac _ (hch.path _ hm), ih⟩
+
+theorem Chain.length_le {S : Schema} {db : DB} (hac : AcyclicData S db) {y : Key} {l : List Key}
+    (h : Chain S db y l) : l.length ≤ db.rows.length := by
+  have := (h.nodup hac).length_le_of_subset h.rows
+  simpa using this
+
+/-- greatest `n ≤ N` satisfying `P` (0 if none) -/
+noncomputable def greatest (P : Nat → Prop) : Nat → Nat
+  | 0 => 0
+  | N + 1 => if P (N + 1) then N + 1 else greatest P N
+
+theorem greatest_spec (P : Nat → Prop) (h0 : P 0) : ∀ N, P (greatest P N) ∧ greatest P N ≤ N ∧ ∀ n ≤ N, P n → n ≤ greatest P N
+  | 0 => ⟨h0, Nat.le_refl _, fun n hn _ => hn⟩
+  | N + 1 => by
+    obtain ⟨a, b, c⟩ := greatest_spec P h0 N
+    unfold greatest
+    by_cases h : P (N + 1)
+    · rw [if_pos h]
+      exact ⟨h, Nat.le_refl _, fun n hn _ => hn⟩
+    · rw [if_neg h]
+      refine ⟨a, Nat.le_succ_of_le b, fun n hn hp => ?_⟩
+      rcases Nat.lt_or_ge n (N + 1) with hlt | hge
+      · exact c n (by omega) hp
+      · have : n = N + 1 := by omega
+        exact absurd (this ▸ hp) h
+
+/-- length of the longest chain of cascade referrers below a key -/
+noncomputable def height (S : Schema) (db : DB) (y : Key) : Nat :=
+  greatest (fun n => ∃ l, Chain S db y l ∧ l.length = n) db.rows.length
+
+/-- **graph lemma**: acyclic data has a rank that strictly decreases along cascade references and is bounded by
+    the number of rows -/
+theorem ranked_of_acyclic {S : Schema} {db : DB} (hac : AcyclicData S db) :
+    Ranked S db (height S db) ∧ ∀ y, height S db y ≤ db.rows.length := by
+  have spec := fun y => greatest_spec (fun n => ∃ l, Chain S db y l ∧ l.length = n) ⟨[], .nil y, rfl⟩ db.rows.length
+  refine ⟨?_, fun y => (spec y).2.1⟩
+  intro r hr y hc
+  obtain ⟨⟨l, hl, hlen⟩, _, _⟩ := spec r.key
+  have hch : Chain S db y (r.key :: l) := .cons hr hc hl
+  have hle := hch.length_le hac
+  have := (spec y).2.2 (l.length + 1) (by simpa using hle) ⟨r.key :: l, hch, by simp⟩
+  unfold height
+  omega
+
+end
+
+/-! ## fuel monotonicity -/
+
+/-- `rec'` answers like `rec` wherever `rec` did not run out of fuel -/
+def Refines (rec rec' : DB → Nat → Nat → Res) : Prop :=
+  ∀ db k j, (rec db k j).isFuel = false → rec' db k j = rec db k j
+
+theorem destroyRows_refines {rec rec' : DB → Nat → Nat → Res} (h : Refines rec rec') (k : Nat) :
+    ∀ (ids : List Nat) (db : DB), (destroyRows rec k ids db).isFuel = false →
+      destroyRows rec' k ids db = destroyRows rec k ids db := by
+  intro ids
+  induction ids with
+  | nil => intro db _; rfl
+  | cons i is ih =>
+    intro db hnf
+    unfold destroyRows at hnf ⊢
+    split
+    · next hp =>
+      rw [if_pos hp] at hnf
+      cases hrec : rec db k i with
+      | ok db' =>
+        rw [hrec] at hnf
+        rw [h db k i (by rw [hrec]; rfl), hrec]
+        exact ih db' hnf
+      | refused db' =>
+        rw [h db k i (by rw [hrec]; rfl), hrec]
+      | fuel db' =>
+        rw [hrec] at hnf
+        cases hnf
+    · next hp =>
+      rw [if_neg hp] at hnf
+      exact ih db hnf
+
+theorem procDep_refines {S : Schema} {rec rec' : DB → Nat → Nat → Res} (h : Refines rec rec') (c i : Nat) (db : DB) (k : Nat)
+    (hnf : (procDep S rec c i db k).isFuel = false) : procDep S rec' c i db k = procDep S rec c i db k := by
+  unfold procDep at hnf ⊢
+  simp only at hnf ⊢
+  split
+  · rfl
+  · next h1 =>
+    rw [if_neg h1] at hnf
+    split
+    · rfl
+    · next h2 =>
+      rw [if_neg h2] at hnf
+      split
+      · next h3 =>
+        rw [if_pos h3] at hnf
+        exact destroyRows_refines h k _ _ hnf
+      · rfl
+
+theorem procDeps_refines {S : Schema} {rec rec' : DB → Nat → Nat → Res} (h : Refines rec rec') (c i : Nat) :
+    ∀ (ks : List Nat) (db : DB), (procDeps S rec c i ks db).isFuel = false →
+      procDeps S rec' c i ks db = procDeps S rec c i ks db := by
+  intro ks
+  induction ks with
+  | nil => intro db _; rfl
+  | cons k ks ih =>
+    intro db hnf
+    unfold procDeps at hnf ⊢
+    cases hrec : procDep S rec c i db k with
+    | ok db' =>
+      rw [hrec] at hnf
+      rw [procDep_refines h c i db k (by rw [hrec]; rfl), hrec]
+      exact ih db' hnf
+    | refused db' =>
+      rw [procDep_refines h c i db k (by rw [hrec]; rfl), hrec]
+    | fuel db' =>
+      rw [hrec] at hnf
+      cases hnf
+
+theorem destroyStep_refines {S : Schema} {rec rec' : DB → Nat → Nat → Res} (h : Refines rec rec') :
+    Refines (destroyStep S rec) (destroyStep S rec') := by
+  intro db c i hnf
+  unfold destroyStep at hnf ⊢
+  simp only at hnf ⊢
+  have key : (procDeps S rec c i (dependents S c) { db with links := delOwnLinks S c i db.links }).isFuel = false := by
+    cases hr : procDeps S rec c i (dependents S c) { db with links := delOwnLinks S c i db.links } with
+    | ok _ => rfl
+    | refused _ => rfl
+    | fuel _ => rw [hr] at hnf; cases hnf
+  rw [procDeps_refines h c i _ _ key]
+
+/-- more fuel never changes an outcome that was reached without running out of it -/
+theorem destroy_refines (S : Schema) : ∀ n, Refines (destroy S n) (destroy S (n + 1))
+  | 0 => fun _ _ _ h => by cases h
+  | n + 1 => destroyStep_refines (destroy_refines S n)
+
+theorem destroy_fuel_mono (S : Schema) (n m : Nat) (db : DB) (c i : Nat) (hnf : (destroy S n db c i).isFuel = false)
+    (hm : n ≤ m) : destroy S m db c i = destroy S n db c i := by
+  induction m with
+  | zero => have : n = 0 := by omega
+            subst this; rfl
+  | succ m ih =>
+    rcases Nat.lt_or_ge m n with hlt | hge
+    · have : n = m + 1 := by omega
+      subst this; rfl
+    · have e := ih hge
+      rw [destroy_refines S m db c i (by rw [e]; exact hnf), e]
+
+theorem CPath.rank_lt {S : Schema} {db : DB} {ρ : Key → Nat} (h : Ranked S db ρ) {x y : Key} (p : CPath S db x y) :
+    ρ x < ρ y := by
+  induction p with
+  | one hr hc => exact h _ hr _ hc
+  | cons hr hc _ ih => exact Nat.lt_trans (h _ hr _ hc) ih
 
 end SqlObjVerif.Graph
